@@ -120,7 +120,7 @@ def public_base(t: T):
     simple = {'at', 'disable', 'enable', 'not_at', 'opt', 'partial', 'plus', 'rematch', 'rep', 'rep_min_max',
               'rep_opt', 'seq', 'sor', 'star', 'star_partial', 'star_strict', 'strict', 'until', 'if_then_else',
               'must', 'bytes', 'require', 'string', 'istring', 'minus', 'rep_min', 'if_must_else', 'star_must',
-              'pad_opt'}
+              'pad_opt', 'rep_one_min_max'}
     if n in simple:
         return I(n, *a)
     if n in ('eof', 'bof', 'bol', 'eolf', 'success', 'failure', 'identifier', 'identifier_first', 'identifier_other'):
@@ -141,6 +141,8 @@ def public_base(t: T):
         return I('range', FAILURE_RES, PEEK_CHAR, *a)
     if n == 'ranges':
         return I('ranges', PEEK_CHAR, *a)
+    if n in ('predicates_and', 'predicates_or', 'predicate_not'):      # contrib/predicates.hpp (ascii)
+        return I('predicates', X({'predicates_and': 'and', 'predicates_or': 'or', 'predicate_not': 'not'}[n]), *a)
     if n == 'two':
         return I('string', a[0], a[0])
     if n == 'three':
@@ -258,6 +260,46 @@ def chars(args):
     return [v for (k, v) in args if k == 'c']
 
 
+def byte_set_of(t) -> set:
+    """Accept set (byte values 0..255) of a one-byte ascii rule: any, one, not_one, range, not_range, ranges, predicates_*."""
+    if isinstance(t, T) and t.ns == 'pub':
+        t = public_base(t)
+    t = canon(t)
+    n, a = t.name, list(t.args)
+    if n == 'any':
+        return set(range(256))
+    if n == 'one':
+        cs = set(chars(a[2:]))
+        return cs if a[0] == SUCCESS_RES else set(range(256)) - cs
+    if n == 'range':
+        lo, hi = chars(a[2:])
+        r = set(range(lo, hi + 1))
+        return r if a[0] == SUCCESS_RES else set(range(256)) - r
+    if n == 'ranges':
+        cs = chars(a[1:])
+        r = set()
+        for i in range(len(cs) // 2):
+            r |= set(range(cs[2 * i], cs[2 * i + 1] + 1))
+        if len(cs) % 2 == 1:
+            r.add(cs[-1])
+        return r
+    if n == 'predicates':
+        subs = [byte_set_of(x) for x in a[1:] if is_type(x)]
+        op = a[0][1]
+        if op == 'and':
+            r = set(range(256))
+            for x in subs:
+                r &= x
+            return r
+        if op == 'or':
+            r = set()
+            for x in subs:
+                r |= x
+            return r
+        return set(range(256)) - subs[0]
+    raise ValueError(f"not a one-byte rule: {n}")
+
+
 def body_of_internal(t: T):
     """(kind, params) of the `match()` an internal type ends up with, following the
     specialisations and base classes in internal/*.hpp.  Type params are type expressions."""
@@ -309,6 +351,19 @@ def body_of_internal(t: T):
     if n == 'istring':
         cs = chars(a)
         return ('atom', ['success']) if not cs else ('atom', ['istring', cs])
+    if n == 'predicates':
+        # contrib/predicates.hpp: one byte is peeked and tested with the conjunction / disjunction / negation of the
+        # sub-rules' test_one; the accept set is computed here and handed to the model as a `ranges` atom
+        acc = sorted(byte_set_of(t))
+        pairs = []
+        for c in acc:
+            if pairs and pairs[-1][1] == c - 1:
+                pairs[-1][1] = c
+            else:
+                pairs.append([c, c])
+        return ('atom', ['ranges', [(lo, hi) for lo, hi in pairs], None])
+    if n == 'rep_one_min_max':      # contrib/rep_one_min_max.hpp
+        return ('atom', ['repOne', a[0][1], a[1][1], a[2][1]])
     if n == 'bytes':
         k = a[0][1]
         return ('atom', ['success']) if k == 0 else ('atom', ['bytes', k])
@@ -557,6 +612,8 @@ class Grammar:
                 return f"atom {a} {len(p[1])} " + " ".join(map(str, p[1]))
             if a in ('bytes', 'require', 'maxDigits'):
                 return f"atom {a} {p[1]}"
+            if a == 'repOne':
+                return f"atom repOne {p[1]} {p[2]} {p[3]}"
             if a == 'utf8Range':
                 return f"atom utf8Range {int(p[1])} {p[2]} {p[3]}"
             return f"atom {a}"
@@ -680,7 +737,19 @@ class Grammar:
             o.append(f"template< typename R > using sel = {pt}::selector< R, {pt}::store_content::on< {', '.join(groups['store'])} >, "
                      f"{pt}::remove_content::on< {', '.join(groups['remove'])} >, {pt}::fold_one::on< {', '.join(groups['fold'])} >, "
                      f"{pt}::discard_empty::on< {', '.join(groups['discard'])} > >;")
+        mi = getattr(self, 'mi_msgs', None)
+        if mi is not None:
+            # C05 (oracle-only part): a must_if< errs, ctl > control; `errs::message< R >` for the rules in mi
+            o.append("struct errs { template< typename > static constexpr const char* message = nullptr; };")
+            for nid, msg in sorted(mi.items()):
+                o.append(f'template<> inline constexpr const char* errs::message< {self.nodes[nid].cpp} > = "{msg}";')
+            o.append("template< typename R > struct ctl_mi : tao::pegtl::must_if< errs, ctl, false >::template control< R > {};")
         o.append("inline void reg() {")
+        if mi is not None:
+            for nid, msg in sorted(mi.items()):
+                o.append(f'  vh::messages()[ "{msg}" ] = {nid};')
+        for rid, msg in sorted(self.messages.items()):
+            o.append(f'  vh::messages()[ "{msg}" ] = {rid};')
         for nid in sorted(self.nodes):
             o.append(f"  vh::reg< tag, {self.nodes[nid].cpp} >( {nid} );")
         for cpp, (lid, msg) in sorted(limit_ids.items()):
